@@ -30,6 +30,7 @@ from .._protocol.incoming import DNSIncoming
 from .._services.info import ServiceInfo
 from .._transport import _WrappedTransport
 from .._utils.net import IPVersion
+from .._utils.time import current_time_millis
 from ..const import (
     _ADDRESS_RECORD_TYPES,
     _CLASS_IN,
@@ -456,10 +457,16 @@ class QueryHandler:
                 log.debug("Unable to send unicast reply to %s:%s: name part too long", addr, port)
         if question_answers.mcast_now:
             self.zc.async_send(construct_outgoing_multicast_answers(question_answers.mcast_now))
+        if not (question_answers.mcast_aggregate or question_answers.mcast_aggregate_last_second):
+            return
+        # A truncated query has been held for its continuation packets: the
+        # delays count from now, not from the arrival of its first packet,
+        # or its answers would join a group that is due too early
+        now = first_packet.now if len(packets) == 1 and not first_packet.truncated else current_time_millis()
         if question_answers.mcast_aggregate:
-            self.out_queue.async_add(first_packet.now, question_answers.mcast_aggregate)
+            self.out_queue.async_add(now, question_answers.mcast_aggregate)
         if question_answers.mcast_aggregate_last_second:
             # https://datatracker.ietf.org/doc/html/rfc6762#section-14
             # If we broadcast it in the last second, we have to delay
             # at least a second before we send it again
-            self.out_delay_queue.async_add(first_packet.now, question_answers.mcast_aggregate_last_second)
+            self.out_delay_queue.async_add(now, question_answers.mcast_aggregate_last_second)
